@@ -94,12 +94,17 @@ impl S3 for FileSystem {
         let file_metadata = try_!(fs::metadata(&src_path).await);
         let last_modified = Timestamp::from(try_!(file_metadata.modified()));
 
-        let _ = try_!(fs::copy(&src_path, &dst_path).await);
+        // copying a file onto itself would truncate it
+        let is_same_object = src_path == dst_path;
+
+        if !is_same_object {
+            let _ = try_!(fs::copy(&src_path, &dst_path).await);
+        }
 
         debug!(from = %src_path.display(), to = %dst_path.display(), "copy file");
 
         let src_metadata_path = self.get_metadata_path(bucket, key, None)?;
-        if src_metadata_path.exists() {
+        if src_metadata_path.exists() && !is_same_object {
             let dst_metadata_path = self.get_metadata_path(&input.bucket, &input.key, None)?;
             let _ = try_!(fs::copy(src_metadata_path, dst_metadata_path).await);
         }
